@@ -1,6 +1,6 @@
 (* C16 - configuration is saved, duplicated and re-applied losslessly; user settings win.
    Statements only; proofs are in Config/Options_proofs.v. *)
-From CAres.Config Require Import Spec Vif Options_proofs Csv_proofs Dup_proofs Witness.
+From CAres.Config Require Import Spec Vif Options_proofs Wf_proofs Csv_proofs Dup_proofs Witness.
 From CAres.Gen Require Import Consts.
 From Coq Require Import String.
 Local Open Scope string_scope.
@@ -52,6 +52,23 @@ Theorem C16_save_init_id_partial : forall nf g e c o m' c1,
   covered_same c c1.
 Proof. exact save_init_effective. Qed.
 Print Assumptions C16_save_init_id_partial.
+
+(* chan_wf is not an assumption about channels in general: every channel that ares_init_options
+   returns for int-sized option values and a mask of defined bits satisfies it ... *)
+Theorem C16_init_gives_wf : forall nf e o m c,
+  opts_int o -> fits24 m -> init_options nf e o m = Ok c -> chan_wf c.
+Proof. exact init_options_wf. Qed.
+Print Assumptions C16_init_gives_wf.
+
+(* ... hence C16_save_init_id with hypotheses on the application's input only (the remaining
+   side condition: ARES_OPT_DOMAINS with an empty list asks for the host-name default, which
+   depends on the host name at the time of each initialisation) *)
+Theorem C16_save_init_id : forall nf g e e' o m c o' m' c1,
+  opts_int o -> fits24 m -> init_options nf e o m = Ok c ->
+  (has (c_optmask c) B_DOMAINS = true -> c_domains c <> []) ->
+  save_options g c = Ok (o', m') -> init_options nf e' o' m' = Ok c1 -> covered_same c c1.
+Proof. exact save_init_of_init. Qed.
+Print Assumptions C16_save_init_id.
 
 Theorem C16_save_init_hypotheses_inhabited :
   chan_wf ex_chan /\ (has (c_optmask ex_chan) B_DOMAINS = true -> c_domains ex_chan <> []) /\
